@@ -343,6 +343,10 @@ def configs(ctx):
                     out.append(dict(method=m, span=span, dt0=(0.2 if long_running else dt0), tol=tol, jac=jac, dense=dense, evcb=evcb))
                     if m in ("RK4Solver", "RK45CKSolver") and dense and evcb:
                         out.append(dict(method=m, span=span, dt0=dt0, tol=tol, jac=jac, dense=dense, evcb=evcb, against=True))
+    # the same far from the origin of the time axis (rounding of t exceeds any absolute tolerance of a few eps)
+    for (m, dt0, tol) in (("RK4Solver", 0.7, 1e-6), ("RK45CKSolver", 3.0, 1e-4)):
+        for span in ([1000.0, 1002.0], [-1000.0, -1002.0]):
+            out.append(dict(method=m, span=span, dt0=dt0, tol=tol, jac=None, dense=True, evcb=True))
     return out
 
 
